@@ -20,6 +20,9 @@ type rootInfo struct {
 	Prefix   string // leaf name = Prefix + path
 }
 
+// ModelFunc models an external function (st is the state current at the call).
+type ModelFunc func(in *Interp, args []Value, guard bdd.Node, st *State, pos string) (Value, bool)
+
 // LoopFlow is the value of one loop-header phi along an edge.
 type LoopFlow struct {
 	Phi  string
@@ -75,7 +78,7 @@ type Interp struct {
 	Loops      []*LoopSummary
 	rangeN     int
 	// Models of external functions: name -> handler.
-	Models map[string]func(in *Interp, args []Value, guard bdd.Node, pos string) (Value, bool)
+	Models map[string]ModelFunc
 	// NoGlobalEvents: do not record reads of package-level variables.
 	NoGlobalEvents bool
 
@@ -249,6 +252,11 @@ func (in *Interp) initLeaf(root string, ri *rootInfo, path string, t types.Type)
 		return &Slice{Sym: name, Nil: bdd.False, Len: in.C.Zext(in.C.Atom("len("+name+")", w-1), w)}
 	case *types.Map:
 		return &Map{Sym: name, Nil: in.nilVar(name)}
+	case *types.Basic:
+		if t.Underlying().(*types.Basic).Info()&types.IsString != 0 {
+			w := in.intWidth()
+			return &Str{Sym: name, Len: in.C.Zext(in.C.Atom("len("+name+")", w-1), w)}
+		}
 	}
 	return &Opaque{Why: "initial " + name}
 }
@@ -404,8 +412,9 @@ type retRec struct {
 }
 
 type frame struct {
-	fn   *ssa.Function
-	vals map[ssa.Value]Value
+	fn     *ssa.Function
+	vals   map[ssa.Value]Value
+	defers []string
 }
 
 var rpoCache sync.Map // *ssa.Function -> []*ssa.BasicBlock
@@ -739,7 +748,7 @@ func (in *Interp) operand(fr *frame, v ssa.Value) Value {
 		name := x.RelString(nil)
 		r := "global:" + name
 		if _, ok := in.roots[r]; !ok {
-			in.roots[r] = &rootInfo{Symbolic: true, Prefix: "global " + name}
+			in.roots[r] = &rootInfo{Symbolic: true, Prefix: "global " + x.Name()}
 		}
 		return &Ptr{Root: r, Nil: bdd.False}
 	case *ssa.Function:
@@ -774,6 +783,10 @@ func (in *Interp) constant(c *ssa.Const) Value {
 				return in.C.Const(w, uint64(i))
 			}
 		}
+	}
+	if b, ok := t.Underlying().(*types.Basic); ok && b.Info()&types.IsString != 0 && c.Value.Kind() == constant.String {
+		sv := constant.StringVal(c.Value)
+		return &Str{Const: &sv, Len: in.C.Const(in.intWidth(), uint64(len(sv)))}
 	}
 	return &Opaque{Why: "const " + c.String()}
 }
@@ -880,6 +893,16 @@ func (in *Interp) exec(fr *frame, instr ssa.Instruction, pred bdd.Node, st *Stat
 			} else {
 				fr.vals[x] = iv.Conc
 			}
+		}
+	case *ssa.Defer:
+		name := "func value"
+		if f := x.Call.StaticCallee(); f != nil {
+			name = f.String()
+		}
+		fr.defers = append(fr.defers, name)
+	case *ssa.RunDefers:
+		for i := len(fr.defers) - 1; i >= 0; i-- {
+			in.T.Emit(pred, "deferred:"+fr.defers[i], "", nil, 0, in.P.Pos(x.Pos()))
 		}
 	case *ssa.MakeSlice:
 		lv, ok := in.operand(fr, x.Len).(dom.BV)
@@ -1104,6 +1127,28 @@ func (in *Interp) binop(fr *frame, x *ssa.BinOp) Value {
 	av, aok := a.(dom.BV)
 	bv, bok := b.(dom.BV)
 	if !aok || !bok {
+		if sa, ok := a.(*Str); ok {
+			if sb, ok := b.(*Str); ok && (x.Op == token.EQL || x.Op == token.NEQ) {
+				var eq bdd.Node
+				switch {
+				case sb.Const != nil && *sb.Const == "":
+					eq = C.IsZero(sa.Len)
+				case sa.Const != nil && *sa.Const == "":
+					eq = C.IsZero(sb.Len)
+				case sa.Const != nil && sb.Const != nil:
+					eq = bdd.False
+					if *sa.Const == *sb.Const {
+						eq = bdd.True
+					}
+				default:
+					in.undecided(x.Pos(), "comparison of two symbolic strings")
+				}
+				if x.Op == token.NEQ {
+					eq = C.M.Not(eq)
+				}
+				return C.Bool(eq)
+			}
+		}
 		// nil comparisons
 		if x.Op == token.EQL || x.Op == token.NEQ {
 			var n bdd.Node
@@ -1210,6 +1255,11 @@ func (in *Interp) convert(fr *frame, x *ssa.Convert) Value {
 	if _, isO := v.(*Opaque); isO {
 		return v
 	}
+	if sv, ok := v.(*Str); ok {
+		if _, isSlice := x.Type().Underlying().(*types.Slice); isSlice && sv.Sym != "" {
+			return &Slice{Sym: sv.Sym, Nil: bdd.False, Len: sv.Len}
+		}
+	}
 	in.undecided(x.Pos(), "unsupported conversion %s -> %s", x.X.Type(), x.Type())
 	return nil
 }
@@ -1279,7 +1329,7 @@ func (in *Interp) callInstr(fr *frame, x *ssa.Call, pred bdd.Node, st *State) Va
 	name := fn.String()
 	in.Externals[name]++
 	if h, ok := in.Models[name]; ok {
-		if v, handled := h(in, args, pred, pos); handled {
+		if v, handled := h(in, args, pred, st, pos); handled {
 			return v
 		}
 	}
@@ -1312,8 +1362,15 @@ func (in *Interp) invoke(recv Value, recvType types.Type, method *types.Func, ar
 			in.undecided(pos, "method %s not found on %s", method.Name(), iv.ConcType)
 		}
 		fn := in.P.Prog.MethodValue(sel)
-		if fn == nil || fn.Blocks == nil {
-			in.undecided(pos, "no body for %s.%s", iv.ConcType, method.Name())
+		if fn != nil && (fn.Blocks == nil || !load.InModule(fn)) {
+			if h, ok := in.Models[fn.String()]; ok {
+				if v, handled := h(in, append([]Value{iv.Conc}, args...), pred, st, in.P.Pos(pos)); handled {
+					return v
+				}
+			}
+		}
+		if fn == nil || fn.Blocks == nil || !load.InModule(fn) {
+			in.undecided(pos, "call of external method %s.%s", iv.ConcType, method.Name())
 		}
 		res, out := in.call(fn, append([]Value{iv.Conc}, args...), pred, st, pos)
 		*st = *out
